@@ -530,8 +530,24 @@ class Inliner(object):
         self.done.append(h.name)
         return _fix_empty(new)
 
+    def _has_helper_call(self, node, local):
+        for n in ast.walk(node):
+            if isinstance(n, ast.Call) and self.resolve(n, local)[0] is not None:
+                return True
+        return False
+
     def statement(self, st, local):
         """[statements] replacing ``st`` or None"""
+        # if A and H(..): S      ->      if A: if H(..): S          (no else: exactly the same short circuit)
+        if isinstance(st, ast.If) and not st.orelse and isinstance(st.test, ast.BoolOp) and isinstance(st.test.op, ast.And) \
+                and len(st.test.values) >= 2 and not self._has_helper_call(st.test.values[0], local) \
+                and any(self._has_helper_call(v, local) for v in st.test.values[1:]):
+            rest = st.test.values[1:]
+            inner_test = rest[0] if len(rest) == 1 else ast.BoolOp(op=ast.And(), values=rest)
+            inner = ast.If(test=inner_test, body=st.body, orelse=[], lineno=st.lineno, col_offset=0)
+            outer = ast.If(test=st.test.values[0], body=[inner], orelse=[], lineno=st.lineno, col_offset=0)
+            ast.fix_missing_locations(outer)
+            return [outer]
         if isinstance(st, ast.For):
             rep = self.for_over_generator(st, local)
             if rep is not None:
